@@ -25,7 +25,8 @@ RULE = ("G = connect_coding_graph(k, mask, t) for sparse / dense / filter masks,
         "repair_dna(apply(E, w), G, v, k, has_indel=True, heap_size=1e6 [, vt_check = VT(w)]). Verdict: detected == |E| => w in "
         "candidates; |E| = 1: detected == 1 iff the corrupted strand is not a walk (else 0); substitutions only: the same with "
         "has_indel=False. Non-trivial: the corrupted strand is not a walk of G (an error is there to be found); distinct = hash of "
-        "(graph, start, walk, edits, options).")
+        "(graph, start, walk, edits, options)."
+        ' Also: order-8 generated graphs (vertex indices beyond 2^15) and edit sequences in which one accessor object is refilled in place with another generated graph between repairs.')
 HEAP = 1e6
 
 
